@@ -24,6 +24,9 @@ const (
 
 func StartSign(config *config.Config, signers []party.ID, message []byte, pl *pool.Pool) protocol.StartFunc {
 	return func(sessionID []byte) (round.Session, error) {
+		if config == nil {
+			return nil, errors.New("sign.Create: config is nil")
+		}
 		group := config.Group
 
 		// this could be used to indicate a pre-signature later on
